@@ -87,3 +87,71 @@ Qed.
 
 Theorem rejected_iff_cyclic P : (exists n, find_cycle P = Some n) <-> has_cycle P.
 Proof. split; [intros [n H]; exact (rejection_sound P n H) | apply cycle_rejected]. Qed.
+
+(* ... and the command the error names lies on a cycle itself: the walk through still-unresolved references
+   can only stop at a command it has already visited. *)
+Lemma lookup_None P n : lookup P n = None -> ~ In n (names P).
+Proof. induction P as [|c P IH]; simpl; [tauto|]. destruct (Nat.eqb (nm c) n) eqn:E; [discriminate|].
+  intros H [Hn|Hn]; [apply Nat.eqb_neq in E; contradiction | exact (IH H Hn)]. Qed.
+
+Lemma NoDup_snoc (l : list name) a : NoDup l -> ~ In a l -> NoDup (l ++ [a]).
+Proof. induction l as [|x l IH]; intros ND Ha; simpl; [constructor; [intros []|constructor]|].
+  inversion ND as [|y l' Hx ND']; subst. constructor.
+  - rewrite in_app_iff. intros [H|[H|[]]]; [contradiction | apply Ha; left; symmetry; exact H].
+  - apply IH; [exact ND' | intros H; apply Ha; right; exact H]. Qed.
+
+Lemma linked_snoc P b : forall l a, linked P (l ++ [a]) -> edge P a b -> linked P ((l ++ [a]) ++ [b]).
+Proof. induction l as [|x l IH]; intros a H E; [simpl; tauto|].
+  change (linked P (x :: ((l ++ [a]) ++ [b]))). change (linked P (x :: (l ++ [a]))) in H.
+  destruct (l ++ [a]) as [|y t] eqn:El; [destruct l; discriminate|].
+  destruct H as [Exy H]. split; [exact Exy|]. rewrite <- El in *. apply IH; assumption. Qed.
+
+Section Walk.
+Variables (P r : prog).
+Hypothesis Hsub : incl r P.
+Hypothesis Hst : filter (resolved r) r = [].
+
+Lemma walk_on_cycle : forall fuel seen n,
+  linked P (seen ++ [n]) -> NoDup seen -> incl seen (names r) -> In n (names r) ->
+  length (names r) < fuel + length seen ->
+  exists l, chain P (walk fuel r seen n) l (walk fuel r seen n).
+Proof.
+  induction fuel as [|f IH]; intros seen n L ND I' Hn Hf.
+  - pose proof (NoDup_incl_length ND I'). simpl in Hf. lia.
+  - cbn [walk]. destruct (mem n seen) eqn:M.
+    + apply mem_In in M. apply in_split in M. destruct M as [s1 [s2 ->]].
+      rewrite <- app_assoc in L. apply linked_suffix in L. exists s2. apply linked_chain. exact L.
+    + assert (Hns : ~ In n seen) by (intros H; apply mem_In in H; congruence).
+      destruct (lookup r n) as [c|] eqn:Lk; [|exfalso; exact (lookup_None _ _ Lk Hn)].
+      apply lookup_In in Lk. destruct Lk as [Hc Ec].
+      assert (R : resolved r c = false).
+      { destruct (resolved r c) eqn:R; [|reflexivity].
+        assert (H : In c (filter (resolved r) r)) by (apply filter_In; auto). rewrite Hst in H. destruct H. }
+      destruct (resolved_false _ _ R) as [d [Hd Hdn]].
+      destruct (filter (fun x => mem x (names r)) (refs c)) as [|x t] eqn:Ef.
+      { assert (H : In d (filter (fun x => mem x (names r)) (refs c))) by (apply filter_In; split; [exact Hd | apply mem_In; exact Hdn]).
+        rewrite Ef in H. destruct H. }
+      assert (Hx : In x (filter (fun x => mem x (names r)) (refs c))) by (rewrite Ef; left; reflexivity).
+      apply filter_In in Hx. destruct Hx as [Hxr Hxn]. apply mem_In in Hxn.
+      apply IH.
+      * apply linked_snoc; [exact L|]. exists c. repeat split; [apply Hsub; exact Hc | exact Ec | exact Hxr].
+      * apply NoDup_snoc; assumption.
+      * intros y Hy. apply in_app_iff in Hy. destruct Hy as [Hy|[<-|[]]]; [apply I'; exact Hy | exact Hn].
+      * exact Hxn.
+      * rewrite app_length. simpl. lia.
+Qed.
+End Walk.
+
+Theorem reported_on_cycle P n : find_cycle P = Some n -> exists l, chain P n l n.
+Proof.
+  unfold find_cycle. destruct (peel (length P) P) as [r|] eqn:E; [|discriminate].
+  destruct (peel_stuck_shape _ _ _ (le_n _) E) as [N [St Sub]].
+  destruct r as [|c t]; [congruence|]. intros H.
+  assert (Hn : walk (S (length (c :: t))) (c :: t) [] (nm c) = n) by congruence.
+  rewrite <- Hn. apply (walk_on_cycle P (c :: t) Sub St).
+  - exact I.
+  - constructor.
+  - intros x [].
+  - left; reflexivity.
+  - unfold names. rewrite map_length. simpl. lia.
+Qed.
